@@ -118,6 +118,13 @@ impl Sub for Duplicates {
 /// custom keys that are distinct as strings but close to each other or to registered keys
 const NEAR_KEYS: [&str; 17] = ["", " ", "\u{0}", "customer_id", "customer_name", "customer_id ", "A", "Exp", "SUB", "iss ", "é", "e\u{301}", "a\u{0}", "aa", "ab", "nbf2", "jti_"];
 
+struct CustomReserved;
+impl CustomReserved {
+  fn is(k: &str) -> bool {
+    ["iss", "sub", "aud", "exp", "nbf", "iat", "jti"].contains(&k)
+  }
+}
+
 fn long_key(tail: u8) -> String {
   format!("{}{}", "k".repeat(300), tail)
 }
@@ -130,8 +137,23 @@ fn random_op() -> BoxedStrategy<BOp> {
     1 => any::<bool>().prop_map(|a| BOp::Set(ClaimSpec::Native(if a { "a" } else { "b" }.to_string(), NativeVal::OptNone))),
     4 => (any::<u16>(), 0usize..1000).prop_map(|(i, n)| BOp::Set(ClaimSpec::Custom(NEAR_KEYS[pick(i, NEAR_KEYS.len())].to_string(), json!(n)))),
     1 => (0u8..3, 0usize..1000).prop_map(|(t, n)| BOp::Set(ClaimSpec::CustomOwned(long_key(t), json!(n)))),
+    // keys made of two ordinary keys joined by a character that a flat list of seen keys might use as its separator, next to
+    // their parts: "tenant\u{1f}role" is one key, neither "tenant" nor "role"
+    3 => (any::<u16>(), any::<u16>(), any::<u16>(), 0u8..4, 0usize..1000).prop_map(|(x, y, sep, form, n)| {
+      const PARTS: [&str; 8] = ["a", "b", "role", "tenant", "exp", "sub", "", "k1"];
+      const SEPS: [&str; 18] = ["\u{1f}", "\u{1e}", "\u{0}", ",", ";", "|", " ", "\n", "\t", ":", "/", ".", "=", "&", "\"", "\\", "\u{2028}", "\u{feff}"];
+      let (x, y, sep) = (PARTS[pick(x, 8)], PARTS[pick(y, 8)], SEPS[pick(sep, 18)]);
+      let key = match form {
+        0 => format!("{x}{sep}{y}"),
+        1 => format!("{x}{sep}"),
+        2 => format!("{sep}{y}"),
+        _ => x.to_string(),
+      };
+      if CustomReserved::is(&key) { BOp::Build } else { BOp::Set(ClaimSpec::CustomOwned(key, json!(n))) }
+    }),
     1 => (any::<bool>(), gen::json_doc_value()).prop_map(|(a, v)| BOp::Set(ClaimSpec::Custom(if a { "a" } else { "b" }.to_string(), v))),
     2 => Just(BOp::Ack),
+    1 => (0u8..3).prop_map(BOp::SetPanics),
     1 => Just(BOp::BuildWithUnusableKey),
     1 => Just(BOp::OtherBuildersFail),
     1 => gen::jsonish(6).prop_map(BOp::Footer),
